@@ -1,11 +1,12 @@
 """C15 - csv/text rows have one field per selection and csv is machine-readable"""
-from ..scen_text import text_layout, csv_quoting
+from ..scen_text import text_layout, csv_quoting, text_presets
 from ..scen_print import print_numbers
 
 
 def run(ctx):
     text_layout(ctx)
     csv_quoting(ctx)
+    text_presets(ctx)
     print_numbers(ctx)
     from ..scen_misc import titles
     titles(ctx)
